@@ -148,6 +148,11 @@ def run_tomo(case):
         # structural in-place edit of the base circuit, then process() again on the same object
         W = qubits.make_unitary("haar", 2, case["edit_seed"])
         qubits.add_on_qubit(base, prog, 0, lw.Unitary(W))
+        # the extra callback arguments change as well: the supplied list is extended in place, or (if none was
+        # supplied) the public attribute is assigned
+        extra.append(("arg", "added-before-the-second-run"))
+        if tomo.experiment_args is not extra:
+            tomo.experiment_args = extra
         snap_now[0] = snapshot(base)
         V2 = qubits.on_qubit(n, 0, W) @ V
         one_round(V2, "process() after editing the base circuit")
